@@ -33,6 +33,7 @@ type rgIns struct {
 
 type rgCase struct {
 	Prog []rgIns `json:"prog"`
+	HW   int     `json:"hw,omitempty"` // 2: a HandlerWrapper is installed and every handler has a form it applies to; 1: not
 }
 
 type rgExec struct {
@@ -41,12 +42,21 @@ type rgExec struct {
 	ids  []int
 	rt   string
 	prog []rgIns
+	hw   bool // handlers are declared in a form the HandlerWrapper applies to (not one of the built-in fast-path forms)
+	nw   int  // how many times a wrapper-produced handler ran in the current request
 }
 
 func (x *rgExec) hs(ids []int) []flamego.Handler {
 	out := make([]flamego.Handler, 0, len(ids)+3) // spare capacity on purpose
 	for _, id := range ids {
 		id := id
+		if x.hw {
+			out = append(out, func(c flamego.Context, _ *http.Request) {
+				x.ids = append(x.ids, id)
+				x.rt = c.Param("route")
+			})
+			continue
+		}
 		out = append(out, func(c flamego.Context) {
 			x.ids = append(x.ids, id)
 			x.rt = c.Param("route")
@@ -180,8 +190,20 @@ func rgReplay(raw json.RawMessage, idx int, tr *traceWriter) {
 			}
 		}
 	}
+	if c.HW == 0 {
+		c.HW = 1 + (idx%3)/2
+	}
 	tr.emit(map[string]interface{}{"case": idx, "ev": "reset", "input": c, "nt": len(c.Prog) > 1})
-	x := &rgExec{f: flamego.NewWithLogger(io.Discard), prog: c.Prog}
+	x := &rgExec{f: flamego.NewWithLogger(io.Discard), prog: c.Prog, hw: c.HW == 2}
+	if x.hw {
+		// every handler of a chain - group handlers and the route's own alike - goes through the wrapper exactly once
+		x.f.HandlerWrapper(func(h flamego.Handler) flamego.Handler {
+			return func(c flamego.Context) {
+				x.nw++
+				_, _ = c.Invoke(h)
+			}
+		})
+	}
 	panicked := false
 	func() {
 		defer func() {
@@ -191,13 +213,13 @@ func rgReplay(raw json.RawMessage, idx int, tr *traceWriter) {
 		}()
 		x.exec(0)
 	}()
-	tr.emit(map[string]interface{}{"ev": "prog", "prog": c.Prog, "panicked": panicked})
+	tr.emit(map[string]interface{}{"ev": "prog", "prog": c.Prog, "panicked": panicked, "hw": x.hw})
 	if panicked {
 		return
 	}
 	for _, p := range rgPaths(c.Prog) {
 		for _, m := range []string{"GET", "POST", "HEAD", "PUT", "DELETE"} {
-			x.ids, x.rt = nil, ""
+			x.ids, x.rt, x.nw = nil, "", 0
 			w := httptest.NewRecorder()
 			req, _ := http.NewRequest(m, p, nil)
 			x.f.ServeHTTP(w, req)
@@ -205,7 +227,7 @@ func rgReplay(raw json.RawMessage, idx int, tr *traceWriter) {
 			if ids == nil {
 				ids = []int{}
 			}
-			tr.emit(map[string]interface{}{"ev": "req", "m": m, "path": p, "ids": ids, "route": x.rt, "status": w.Code})
+			tr.emit(map[string]interface{}{"ev": "req", "m": m, "path": p, "ids": ids, "route": x.rt, "status": w.Code, "nw": x.nw})
 		}
 	}
 }
